@@ -64,6 +64,9 @@ impl<TStorage: ?Sized + WritableStorageTraits + 'static> Array<TStorage> {
                     storage_transformer.set(&meta_key_v2_attributes(path), json.into())?;
 
                     metadata.attributes = serde_json::Map::default();
+                } else {
+                    // No attributes: a previously stored .zattrs must not linger
+                    storage_transformer.erase(&meta_key_v2_attributes(path))?;
                 }
 
                 // Store .zarray
